@@ -12,6 +12,7 @@ import (
 	"fmt"
 	"log"
 	"net"
+	"runtime"
 	"strings"
 	"sync"
 	"sync/atomic"
@@ -156,8 +157,23 @@ type Options struct {
 	OnLog func(level, text string)
 }
 
+type stoppableSource struct {
+	inner interface {
+		Config() chan config.ServerConfig
+	}
+	stop *int32
+}
+
+func (s stoppableSource) Config() chan config.ServerConfig {
+	if atomic.LoadInt32(s.stop) != 0 {
+		runtime.Goexit()
+	}
+	return s.inner.Config()
+}
+
 // Ref is a running reference server.
 type Ref struct {
+	stopped int32
 	*kit.Srv
 	Loader    *loader.Loader
 	Sink      *Sink
@@ -259,6 +275,11 @@ func Start(cfg config.ServerConfig, opt Options) (*Ref, error) {
 		r.fwdChan = fwd
 		src = chanSource{fwd}
 	}
+	// tacquito's Loader goroutine has no way to stop. The configuration source is ours, though,
+	// and the goroutine asks it for its channel on every turn of its loop: once the instance is
+	// closed the source ends that goroutine (runtime.Goexit), so that long runs which start
+	// hundreds of thousands of reference servers do not accumulate goroutines and loaders.
+	src = stoppableSource{inner: src, stop: &r.stopped}
 	ld, err := loader.NewLoader(ctx, src,
 		loader.SetLoggerProvider(lg),
 		loader.SetKeychainProvider(secret.New()),
@@ -374,18 +395,35 @@ func (r *Ref) Close() error {
 	if r.Srv != nil && r.Srv.L != nil {
 		err = r.Srv.Stop()
 	}
-	// tacquito's Loader goroutine has no way to stop; it would keep the whole configuration
-	// (providers, users, handlers) alive for ever. Hand it a minimal configuration so that
-	// long runs which start thousands of reference servers only leak a parked goroutine each.
+	// end the loader goroutine: raise the flag and wake it with a minimal configuration (see
+	// stoppableSource); after that nothing references the configuration, providers and handlers
+	atomic.StoreInt32(&r.stopped, 1)
 	tiny := config.ServerConfig{
 		Secrets: []config.SecretConfig{Scope("closed", "closed", "192.0.2.255/32")},
 		Users:   []config.User{{Name: "closed", Scopes: []string{"closed"}}},
 	}
+	ch := r.srcChan
+	if r.fwdChan != nil {
+		ch = r.fwdChan
+	}
 	select {
-	case r.srcChan <- tiny:
-	default:
+	case ch <- tiny:
+	case <-time.After(2 * time.Second):
 	}
 	r.cancel()
+	// whatever tacquito still references of this instance must not pin the recordings
+	if r.Tap != nil {
+		r.Tap.Release()
+	}
+	if r.Sink != nil {
+		r.Sink.Take()
+	}
+	if r.Log != nil {
+		r.Log.Release()
+	}
+	if r.Net != nil {
+		r.Net.Release()
+	}
 	return err
 }
 
